@@ -96,9 +96,17 @@ func (s *Solver) Close() {
 	}
 }
 
+// restart replaces a dead or killed solver process and re-establishes the
+// definitions and level-0 assertions of the current path from the transcript.
 func (s *Solver) restart() {
+	defined, declared, vars, log := s.defined, s.declared, s.vars, s.log.String()
 	s.Close()
-	s.start()
+	if err := s.start(); err != nil {
+		return
+	}
+	s.defined, s.declared, s.vars = defined, declared, vars
+	io.WriteString(s.in, log)
+	s.log.WriteString(log)
 }
 
 func (s *Solver) in0() {}
